@@ -2823,6 +2823,9 @@ void mmd_engine_update_metavalue_for_key(mmd_engine * e, const char * key, const
 
 	d_string_free(temp, true);
 	free(clean);
+
+	// The source changed: the cached parse tree and metadata describe the old text
+	mmd_engine_reset(e);
 }
 
 
